@@ -482,9 +482,19 @@ func (g *Gen) store(st *State, a string, t types.Type, v string) {
 		}
 		return
 	}
-	if _, ok := t.Underlying().(*types.Array); ok {
+	if arr, ok := t.Underlying().(*types.Array); ok {
 		if _, leaf := isLeafArray(t); !leaf {
-			g.fail("whole store of non-leaf array %s", t)
+			// an array of structs written as a whole value (part of a large configuration struct copied by value):
+			// its content is not modelled (see load); the element cells receive unconstrained values, so that a
+			// later element-wise read sees nothing stale (an over-approximation)
+			if arr.Len() > 64 {
+				g.fail("whole store of large non-leaf array %s", t)
+			}
+			for k := int64(0); k < arr.Len(); k++ {
+				fv := g.sc.Fresh("bigelem", g.sortOf(arr.Elem()))
+				g.store(st, fmt.Sprintf("(Elem %s %d)", a, k), arr.Elem(), fv.S)
+			}
+			return
 		}
 	}
 	g.storeLeaf(st, a, t, v)
